@@ -256,6 +256,27 @@ def c10_graphemes(rng, tier):
             out.append((g, inp, ["graphemes", "gslice"]))
     return out
 
+# C01 on the grapheme kinds: clusters together with their proper pieces (e / e + acute, a / a + 2 marks, CR, LF / CR LF), so that
+# a class or sequence given as text (&str / &Graphemes, see harness build::v_one_of_gr) is told apart from its substrings
+GALPHA2 = GALPHA + [101, 120, 3000001, 3000005]
+def c01_graphemes(rng, tier):
+    G = Gen(rng, [c for c in C01_CTORS if c not in ("AnyRef", "SelectRef", "Prog")], alpha=GALPHA2, slices=True)
+    out = []
+    for _ in range(150 if tier == "quick" else 2500):
+        g = G.g(rng.randint(1, 3))
+        for inp in inputs_for(rng, g, GALPHA2, n_valid=2, n_mut=2, n_rand=2):
+            if any(a == 13 and b == 10 for a, b in zip(inp, inp[1:])): continue
+            out.append((g, inp, ["graphemes", "gslice"]))
+    # a cluster next to its proper pieces, every class written three ways (the harness picks the form of the sequence argument from its content)
+    for cl, pieces in ((3000001, [101]), (3000005, [97]), (3000000, [13, 10])):
+        for x in (120, 121, 122, 98, 99, 233):
+            for mk in (lambda c: ["OneOf", c], lambda c: ["NoneOf", c], lambda c: ["Collect", "CVec", ["IRep", ["OneOf", c], 0, "inf"]],
+                       lambda c: ["Then", ["Or", ["OneOf", c], ["To", 1, "Any"]], "End"], lambda c: ["Then", ["Not", ["OneOf", c]], "Any"]):
+                g = mk([cl, x])
+                for inp in [[p] for p in pieces] + [[cl], [x], [pieces[0], x], [x, cl], []]:
+                    out.append((g, inp, ["graphemes", "gslice"]))
+    return out
+
 def c10_cross(groups):
     """C10: the same grammar and token sequence through every input kind. Kinds with index/offset spans must agree
     completely (the harness prints all spans as token indices); kinds whose tokens carry their own spans must agree on the
@@ -302,7 +323,7 @@ SPECS = {
                 rule="random grammars whose inner nodes are mostly repeated/separated_by with every finisher "
                      "(collect Vec/usize/(), collect_exactly, foldl, foldr, *_with, unit) and adaptors (enumerate, map, "
                      "map_with), bounds 0..5, both flags; non-trivial = non-empty input and an iteration node present"),
-    "C03": Spec("C03", CORE + ITER + RECOVER + EMIT + ["ExtWrap"] + ["Lazy"] * 2, obs_errs, sem_obs=lambda r: (r.kind,), ekinds=("rich", "empty"), extra=contract_oracle,
+    "C03": Spec("C03", CORE + ITER + RECOVER + EMIT + ["ExtWrap"] + ["Lazy"] * 2, obs_errs, sem_obs=lambda r: (r.kind,), ekinds=("rich", "empty"), extra=contract_oracle, ikinds=("str", "slice", "io", "stream"),
                 nontrivial=lambda g, inp: len(inp) > 0,
                 rule="C01/C02/C08 grammars, with lazy() at random nodes (also at the top: the only way to accept a proper prefix); each sampled accepted input is also run extended by one token; "
                      "non-trivial = non-empty input"),
@@ -314,12 +335,12 @@ SPECS = {
                 rule="grammars over every modelled constructor (Pratt tables, recursion, memoization, nested_delimiters, lazy, extension parsers included; nested inputs on token trees); each (grammar, input) is run through parse() and check(); "
                      "extension parsers (Ext over an ExtParser with a separate check path through InputRef::parse / InputRef::check) at random nodes; "
                      "non-trivial = non-empty input and an eliding / mode-forcing combinator present"),
-    "C05": Spec("C05", CORE + ITER + ["RepUnit"] * 3 + EMIT * 6 + RECOVER * 2 + ["ExtWrap", "CollectOrNot", "IntoIter", "Prog"], obs_emis, ekinds=("rich", "empty", "cheap"), emit_bias=0.3, n_quick=800,
+    "C05": Spec("C05", CORE + ITER + ["RepUnit"] * 3 + EMIT * 6 + RECOVER * 2 + ["ExtWrap", "CollectOrNot", "IntoIter", "Prog"] + ["MapWith", "Padded"] * 3 + ["FoldlWith"], obs_vv_emis, ekinds=("rich", "empty", "cheap"), emit_bias=0.3, n_quick=800,
                 nontrivial=lambda g, inp: len(inp) > 0 and has_head(g, {"Validate", "RecoverVia", "RecoverSkipUntil", "RecoverSkipRetry"})
                                           and has_head(g, BACKTRACK),
                 rule="C01/C02 grammars with validate emitters and recover_with at random positions; "
                      "non-trivial = an emitter and a backtracking site present, non-empty input"),
-    "C06": Spec("C06", CORE + ITER + ["TryMapWith"] * 2 + ["CollectOrNot", "Prog"], obs_last, ekinds=("rich", "simple", "cheap", "empty"), no_not=True, extra=span_wf_oracle,
+    "C06": Spec("C06", CORE + ITER + ["TryMapWith"] * 2 + ["CollectOrNot", "Prog"] + ["AnyRef", "SelectRef"] * 2, obs_last, ikinds=("str", "slice"), ekinds=("rich", "simple", "cheap", "empty"), no_not=True, extra=span_wf_oracle,
                 nontrivial=lambda g, inp: has_head(g, BACKTRACK),
                 rule="C01/C02 grammars without `not`, all four error types on every case; non-trivial = a backtracking site present"),
     "C07": Spec("C07", CORE + SPANS * 4 + ITER + ["Padded"] + ["AnyRef", "SelectRef"] * 2 + ["Prog"] * 2, obs_vv, ekinds=("rich",), ikinds=("str", "slice", "mapped", "mappedstream", "iter"),
@@ -379,8 +400,9 @@ SPECS = {
                      "hashes every token and snapshots on save), tokens also consumed through InputRef::skip in custom parsers, with_state(seed) at random nodes "
                      "(for grammars containing it only the tie decides: the specification's state is positional); "
                      "non-trivial = an observation present, non-empty input"),
-    "C20": Spec("C20", CORE + SPANS + ITER + EMIT + RECOVER + DECOR + CTX + ["ExtWrap", "Skip", "Padded", "IntoIter", "CollectOrNot", "RepUnitCfg", "Prog"], lambda r: (r.kind,), ekinds=("rich", "empty", "cheap", "simple"),
-                gen_hook=lambda G, rng: (G.leftrec_wrapped() if rng.random() < 0.06 else G.memoize(G.g(rng.randint(2, 3)), 0.3) if rng.random() < 0.06 else G.g(rng.randint(1, 4))),
+    "C20": Spec("C20", CORE + SPANS + ITER + EMIT + RECOVER + DECOR + CTX + ["ExtWrap", "Skip", "Padded", "IntoIter", "CollectOrNot", "RepUnitCfg", "Prog", "Pratt"], lambda r: (r.kind,), ekinds=("rich", "empty", "cheap", "simple"),
+                gen_hook=lambda G, rng: (G.leftrec_wrapped() if rng.random() < 0.06 else G.memoize(G.g(rng.randint(2, 3)), 0.3) if rng.random() < 0.06 else
+                                         G.pratt() if rng.random() < 0.06 else G.g(rng.randint(1, 4))),
                 ikinds=("str", "slice"), nontrivial=lambda g, inp: True,
                 rule="grammars over every modelled constructor (repetition items and skip parsers syntactically consuming), "
                      "all error types; observable = the verdict class (OK / FAIL / PANIC / TIMEOUT); plus implementation-only runs with the verdict known by "
@@ -397,7 +419,16 @@ SPECS["C19"] = Spec("C19", CORE + ["Map"] * 6 + ITER + ["CollectExactly"] * 3 + 
                          "raises the double-drop flag); parse and check, &str / &[T] / Stream; after each case the result, the parser and the input are dropped "
                          "and the live set must be empty; non-trivial = a tracked mapper and a fixed-size / folding / backtracking node present, non-empty input")
 NO_STATE_MW = ["MWSpan", "MWCtx"]
+def via_some(g, rng):
+    """some nested_in nodes get the compound selector never.or(group) (NestedVia)"""
+    if isinstance(g, list):
+        y = [via_some(a, rng) for a in g]
+        if y and y[0] == "NestedIn" and rng.random() < 0.35: y[0] = "NestedVia"
+        return y
+    return g
 def c16_hook(G, rng):
+    return via_some(c16_hook0(G, rng), rng)
+def c16_hook0(G, rng):
     G.mws = ["MWSpan", "MWCtx"]
     d = rng.randint(1, 3)
     inner = G.g(d)
@@ -446,7 +477,7 @@ def c16_cross(groups):
 
 SPECS["C16"] = Spec("C16", CORE + ITER + EMIT + ["RecoverVia"] + ["NestedIn"] * 8 + ["MapWith", "ToSpan"], obs_full, sem_obs=obs_vv_emis_last, ekinds=("rich",), ikinds=("tree",),
                     gen_hook=c16_hook, slices=False, n_quick=800, n_thorough=8000, emit_bias=0.15,
-                    nontrivial=lambda g, inp: has_head(g, {"NestedIn"}) and any(is_group(t) for t in inp),
+                    nontrivial=lambda g, inp: has_head(g, {"NestedIn", "NestedVia"}) and any(is_group(t) for t in inp),
                     rule="token trees (leaves and group tokens, nested up to the grammar's nesting depth, gapped spans, a group spanning its children) with "
                          "C01/C02 grammars at every level and nested_in at random nodes (nested up to 4 deep), validate emitters inside and outside; inputs: "
                          "sampled trees, ill-formed inner sequences (mutations inside groups), a leaf where a group is expected, truncated / extended, random "
@@ -563,5 +594,6 @@ SPECS["C12"].universe = dict(U(leaves=[["Var", 0]], unary=[lambda x: ["Delimited
                              post=lambda g: ["Rec" if sx(g).count("(") % 2 == 0 else "RecDecl", ["Or", ["IgnoreThen", ["Just", [A]], g], ["Just", [B]]]])
 SPECS["C04"].kind_cases = c04_trees
 SPECS["C10"].kind_cases = c10_graphemes
+SPECS["C01"].kind_cases = c01_graphemes
 SPECS["C10"].all_kinds = True
 SPECS["C10"].extra_cases = c10_long
